@@ -17,11 +17,15 @@ import (
 	"strings"
 	"time"
 
+	"github.com/bitcoin-sv/block-headers-service/metrics"
+	"github.com/bitcoin-sv/block-headers-service/transports/http/endpoints"
+	httpserver "github.com/bitcoin-sv/block-headers-service/transports/http/server"
 	"github.com/bitcoin-sv/block-headers-service/verifharness/ev"
 	"github.com/bitcoin-sv/block-headers-service/verifharness/gen"
 	"github.com/bitcoin-sv/block-headers-service/verifharness/refmodel"
 	"github.com/bitcoin-sv/block-headers-service/verifharness/rig"
 	"github.com/bitcoin-sv/block-headers-service/verifharness/snap"
+	"github.com/gin-gonic/gin"
 )
 
 const adminTokenValue = rig.AdminToken
@@ -268,7 +272,7 @@ func (s *store) readBack() error {
 }
 
 func body(r *ev.Run) {
-	r.Rule("requests = for every route of the real engine's routing table: (grid) baseline request with ONE component replaced by every value of its grammar " +
+	r.Rule("every second worker process runs with metrics.enabled (engine built in cmd/main.go's order: metrics middleware, /metrics); value grammars include strings beyond SQLite's pattern limit (50 001 / 70 000 characters), SQL wildcards and bytes that are not valid UTF-8. requests = for every route of the real engine's routing table: (grid) baseline request with ONE component replaced by every value of its grammar " +
 		"(hash / merkle-root / integer / url / token / body / content-type / credentials / extra query), then (random) seeded combinations, byte-mutated bodies and method changes; " +
 		"each on a store with forks and orphans ingested through Chains.Add. An evaluation is a request that the twin engine (same route table, dummy handlers) routes to a registered route; " +
 		"distinct = distinct (route, vector of coarse parameter classes, status); non-trivial = at least one component outside the ordinary valid class.")
@@ -283,12 +287,25 @@ func body(r *ev.Run) {
 	r.Require("param_hash_genesis", 50)
 	r.Require("followup_ok", int64(r.Pick(30000, 1000000)))
 
+	// every second worker process runs with metrics.enabled: the engine is then built in cmd/main.go's order (metrics
+	// middleware in front of every route, /metrics endpoint)
+	metricsOn := r.Worker%2 == 1
+	if metricsOn {
+		metrics.EnableMetrics()
+	}
 	st, err := rig.New(rig.Options{Dir: r.Scratch})
 	if err != nil {
 		r.Violate("harness|rig", err.Error(), "", nil)
 		return
 	}
 	defer st.Destroy()
+	if metricsOn {
+		srv := httpserver.NewHTTPServer(st.Cfg.HTTP, &st.Log)
+		srv.ApplyConfiguration(metrics.Register)
+		srv.ApplyConfiguration(endpoints.SetupRoutes(st.Svc, st.Cfg.HTTP))
+		srv.ApplyConfiguration(func(en *gin.Engine) { st.Engine = en })
+		r.Count("worker_processes_with_metrics_enabled", 1)
+	}
 	tw := newTwin(st.Engine)
 	nStores := r.Pick(32, 160)
 	perStore := r.Pick(2000, 12500)
